@@ -271,9 +271,11 @@ def run(ctx) -> None:
     pv = prog.function("cli._parse_version_tags")
     ctx.visit(pv.fq)
     rets = [n for n in walk_no_nested(pv.node) if isinstance(n, ast.Return)]
-    ctx.require(len(rets) == 1 and isinstance(rets[0].value, ast.ListComp) and len(rets[0].value.generators) == 1,
-                "_parse_version_tags is no longer a single list comprehension")
+    ctx.require(len(rets) == 1, "_parse_version_tags has several return statements")
     lc = rets[0].value
+    if isinstance(lc, ast.Name):
+        lc = shapes.loop_as_listcomp(pv, lc.id, prog) or shapes.resolve_alias(pv, lc)
+    ctx.require(isinstance(lc, ast.ListComp) and len(lc.generators) == 1, "_parse_version_tags is neither a list comprehension nor an accumulator loop")
     g = lc.generators[0]
     p_tags, p_pat, p_new = pv.params[0], pv.params[1], pv.params[2]
     ctx.check("R3", unparse(g.iter) == p_tags and isinstance(g.target, ast.Name) and unparse(lc.elt) == g.target.id,
